@@ -29,6 +29,20 @@
 (* what a forced schedule can reproduce deterministically; at most one waiter  *)
 (* per lock is generated).                                                     *)
 (*                                                                            *)
+(*                                                                            *)
+(* The settlement layer can be SLOW (A.slow): payment requests travel through   *)
+(* a bounded queue (the pay channel, capacity QCap) to one worker that calls    *)
+(* settlement.Pay for one request at a time, and a Pay call then stays in       *)
+(* progress until it is released (PayRelease).  A credit that leaves the        *)
+(* balance at or above the threshold puts its request into the queue while it   *)
+(* holds the peer lock; when the queue is full it WAITS there (pc "c_send")     *)
+(* until the worker has taken a request -- a request is never dropped.  In a    *)
+(* slow behaviour credits arrive as bursts: call kind "burst" = n credits of x  *)
+(* by one goroutine back to back (no gate in between; the burst is one step     *)
+(* unless it has to wait for the queue).  When the layer is not slow a Pay call *)
+(* returns at once and the queue never fills (the fields q/inpay/paid stay      *)
+(* untouched).                                                                  *)
+(*                                                                            *)
 (* The whole state is one record A; the operations are pure functions.         *)
 EXTENDS Integers, Sequences, FiniteSets
 
@@ -36,7 +50,9 @@ CONSTANTS NP,        \* peers 1..NP
           Threads,   \* goroutines
           Thr,       \* payment threshold
           Tol,       \* payment tolerance
-          Fresh      \* TRUE: accounting has not seen any peer yet (first contact is part of the behaviour)
+          Fresh,     \* TRUE: accounting has not seen any peer yet (first contact is part of the behaviour)
+          Slow,      \* TRUE: the settlement layer is slow (see above)
+          QCap       \* capacity of the payment-request queue (>= 1)
 
 Peers == 1..NP
 
@@ -44,7 +60,9 @@ VARIABLES A, res
 vars == <<A, res>>
 
 ZeroP == [p \in Peers |-> 0]
-NoCall == [kind |-> "none", p |-> 0, x |-> 0, traff |-> 0, avail |-> 0, u |-> 0]
+\* u: the balance a Reserve read / the balance before the first credit of a burst; n: credits of a burst;
+\* d: credits of the burst that have been added to the balance so far
+NoCall == [kind |-> "none", p |-> 0, x |-> 0, traff |-> 0, avail |-> 0, u |-> 0, n |-> 1, d |-> 0]
 MaxA(a, b) == IF a > b THEN a ELSE b
 
 InitA == [unpaid   |-> ZeroP,                         \* accountingPeer.unPaidTraffic
@@ -57,19 +75,95 @@ InitA == [unpaid   |-> ZeroP,                         \* accountingPeer.unPaidTr
           pays     |-> ZeroP,                         \* payment requests issued per peer
           due      |-> ZeroP,                         \* credits that left the balance at or above the threshold
           recorded |-> ZeroP,                         \* served traffic recorded per peer
-          refused  |-> ZeroP]                         \* debits refused per peer
+          refused  |-> ZeroP,                         \* debits refused per peer
+          slow     |-> Slow,
+          q        |-> <<>>,                          \* slow: requests waiting in the queue (peers, FIFO)
+          inpay    |-> 0,                             \* slow: peer whose Pay call is in progress, or 0
+          paid     |-> ZeroP,                         \* slow: Pay calls made per peer
+          sendq    |-> <<>>]                          \* slow: goroutines waiting for room in the queue, in order
 
-Call(kind, p, x, traff, avail) == [kind |-> kind, p |-> p, x |-> x, traff |-> traff, avail |-> avail, u |-> 0]
+Call(kind, p, x, traff, avail) == [kind |-> kind, p |-> p, x |-> x, traff |-> traff, avail |-> avail, u |-> 0, n |-> 1, d |-> 0]
+BurstCall(p, x, n) == [Call("burst", p, x, 0, 0) EXCEPT !.n = n]
 
-NeedsLock(kind) == kind \in {"credit", "debit", "notify", "reserve"}
+NeedsLock(kind) == kind \in {"credit", "debit", "notify", "reserve", "burst"}
 MapWaiters(a) == {t \in Threads : a.pc[t] = "mwait"}
 Waiters(a, p) == {t \in Threads : a.pc[t] = "wait" /\ a.loc[t].p = p}
+
+\* the holder unlocks: a waiter (if any) is handed the lock
+Unlock(a, p) ==
+  LET W == Waiters(a, p)
+  IN IF W = {} THEN [a EXCEPT !.lock[p] = 0]
+     ELSE LET w == CHOOSE t \in W : TRUE IN [a EXCEPT !.lock[p] = w, !.granted = w]
+
+(***************************************************************************)
+(* the payment-request queue and the worker (slow settlement layer)          *)
+(***************************************************************************)
+Rep(p, k) == [i \in 1..k |-> p]
+CountQ(a, p) == Cardinality({i \in DOMAIN a.q : a.q[i] = p})
+BigRoom == 1000000
+\* how many more requests can be put before a sender has to wait (an idle worker takes the first one at once)
+Room(a) == IF ~a.slow THEN BigRoom ELSE IF a.inpay = 0 THEN QCap + 1 ELSE QCap - Len(a.q)
+\* k <= Room requests for peer p are put
+Enqueue(a, p, k) ==
+  IF k = 0 THEN a
+  ELSE IF ~a.slow THEN [a EXCEPT !.pays[p] = @ + k]
+  ELSE IF a.inpay = 0
+  THEN [a EXCEPT !.inpay = p, !.paid[p] = @ + 1, !.q = Rep(p, k - 1), !.pays[p] = @ + k]
+  ELSE [a EXCEPT !.q = @ \o Rep(p, k), !.pays[p] = @ + k]
+\* k credits have left the balance of peer p at or above the threshold
+AddDue(a, p, k) == [a EXCEPT !.due[p] = @ + k]
+
+\* credits i = 1..n of a burst c leave the balance at c.u + i * c.x; those at or above the threshold are i >= I0(c)
+I0(c) == IF c.u + c.x >= Thr THEN 1 ELSE (Thr - c.u + c.x - 1) \div c.x
+DueIn(c, lo, hi) == LET f == MaxA(lo, I0(c)) IN IF hi >= f THEN hi - f + 1 ELSE 0
+
+\* goroutine t has added k credits of its burst; the requests of credits lo..hi are put (hi = k when the burst is
+\* over, k - 1 when credit k waits for room); shared with the judge, which takes k and `over` from the observation
+Advance(a, t, lo, k, over) ==
+  LET c == a.loc[t]
+      hi == IF over THEN k ELSE k - 1
+      a1 == AddDue(Enqueue([a EXCEPT !.unpaid[c.p] = c.u + k * c.x], c.p, DueIn(c, lo, hi)), c.p, DueIn(c, lo, hi))
+  IN IF over THEN LET a2 == [a1 EXCEPT !.pc[t] = "idle", !.loc[t] = NoCall] IN IF a.lock[c.p] = t THEN Unlock(a2, c.p) ELSE a2
+     ELSE [a1 EXCEPT !.pc[t] = "c_send", !.loc[t] = [c EXCEPT !.d = k], !.lock[c.p] = t,
+                     !.sendq = IF \E i \in DOMAIN @ : @[i] = t THEN @ ELSE Append(@, t)]
+
+\* goroutine t goes on with its burst (woken = it was waiting for room and the request of credit c.d is put first)
+\* until the burst is over or the request of a credit finds the queue full
+BurstGo(a, t, woken) ==
+  LET c == a.loc[t]
+      lo == IF woken THEN c.d ELSE c.d + 1
+      kb == MaxA(lo, I0(c)) + Room(a)         \* the credit whose request finds no room
+  IN IF kb > c.n THEN Advance(a, t, lo, c.n, TRUE) ELSE Advance(a, t, lo, kb, FALSE)
+
+\* the Pay call in progress returns; the worker takes the next request, and the goroutine that has waited longest
+\* for room puts its request and goes on
+PayReleaseOK(a) == a.slow /\ a.inpay # 0 /\ a.granted = 0
+WorkerNext(a) == IF a.q = <<>> THEN [a EXCEPT !.inpay = 0]
+                 ELSE [a EXCEPT !.inpay = Head(a.q), !.paid[Head(a.q)] = @ + 1, !.q = Tail(a.q)]
+PayRelease(a) ==
+  LET a1 == WorkerNext(a)
+  IN IF a1.sendq = <<>> THEN a1
+     ELSE BurstGo([a1 EXCEPT !.sendq = Tail(@)], Head(a1.sendq), TRUE)
+
+\* every Pay call is released until nothing is left (closed form of iterating PayRelease; MC checks that it is)
+DrainOK(a) == a.slow /\ a.granted = 0 /\ \A t \in Threads : a.pc[t] \in {"idle", "c_send"}
+RECURSIVE FinishSenders(_)
+FinishSenders(a) ==
+  IF a.sendq = <<>> THEN a
+  ELSE LET t == Head(a.sendq)
+           c == a.loc[t]
+           k == DueIn(c, c.d, c.n)
+       IN FinishSenders([a EXCEPT !.sendq = Tail(@), !.unpaid[c.p] = c.u + c.n * c.x, !.pays[c.p] = @ + k, !.due[c.p] = @ + k,
+                                  !.pc[t] = "idle", !.loc[t] = NoCall, !.lock[c.p] = 0])
+Drain(a) == LET b == FinishSenders(a) IN [b EXCEPT !.q = <<>>, !.inpay = 0, !.paid = b.pays]
 
 (***************************************************************************)
 (* first critical section of a call (the lock, if needed, is free or ours)  *)
 (***************************************************************************)
 Enter(a, t, c) ==
-  CASE c.kind = "credit"  -> [a EXCEPT !.unpaid[c.p] = @ + c.x, !.lock[c.p] = t, !.pc[t] = "c_put", !.loc[t] = c]
+  CASE c.kind = "credit"  -> [a EXCEPT !.unpaid[c.p] = @ + c.x, !.lock[c.p] = t, !.pc[t] = "c_put",
+                                       !.loc[t] = [c EXCEPT !.u = a.unpaid[c.p], !.n = 1, !.d = 1]]
+    [] c.kind = "burst"   -> BurstGo([a EXCEPT !.loc[t] = [c EXCEPT !.u = a.unpaid[c.p], !.d = 0]], t, FALSE)
     [] c.kind = "debit"   -> [a EXCEPT !.lock[c.p] = t, !.pc[t] = "d_get", !.loc[t] = c]
     [] c.kind = "notify"  -> [a EXCEPT !.unpaid[c.p] = IF @ <= 0 THEN @ ELSE MaxA(0, @ - c.x),
                                        !.lock[c.p] = 0, !.pc[t] = "idle", !.loc[t] = NoCall]
@@ -84,12 +178,6 @@ Start(a, t, c) ==
   IF a.maplock # 0 THEN [a EXCEPT !.pc[t] = "mwait", !.loc[t] = c]
   ELSE IF ~a.known[c.p] THEN [a EXCEPT !.maplock = t, !.pc[t] = "init", !.loc[t] = c]
   ELSE Start2(a, t, c)
-
-\* the holder unlocks: a waiter (if any) is handed the lock
-Unlock(a, p) ==
-  LET W == Waiters(a, p)
-  IN IF W = {} THEN [a EXCEPT !.lock[p] = 0]
-     ELSE LET w == CHOOSE t \in W : TRUE IN [a EXCEPT !.lock[p] = w, !.granted = w]
 
 \* the map mutex is released: a goroutine waiting for it goes on
 MapUnlock(a) ==
@@ -123,8 +211,10 @@ Release(a, t) ==
          MapUnlock(Start2([a EXCEPT !.known[c.p] = TRUE, !.pc[t] = "idle"], t, c))
     [] a.pc[t] = "c_put" ->
          LET due == a.unpaid[c.p] >= Thr
-         IN Unlock([a EXCEPT !.pays[c.p] = IF due THEN @ + 1 ELSE @, !.due[c.p] = IF due THEN @ + 1 ELSE @,
-                             !.pc[t] = "idle", !.loc[t] = NoCall], c.p)
+         IN IF due /\ Room(a) = 0
+            THEN [a EXCEPT !.pc[t] = "c_send", !.sendq = Append(@, t)]      \* waits for room, the peer lock held
+            ELSE LET k == IF due THEN 1 ELSE 0
+                 IN Unlock(AddDue(Enqueue([a EXCEPT !.pc[t] = "idle", !.loc[t] = NoCall], c.p, k), c.p, k), c.p)
     [] a.pc[t] = "d_get" ->
          IF DebitRefuses(c)
          THEN Unlock([a EXCEPT !.refused[c.p] = @ + 1, !.pc[t] = "idle", !.loc[t] = NoCall], c.p)
@@ -136,13 +226,15 @@ Release(a, t) ==
 (***************************************************************************)
 (* Next-state relation                                                      *)
 (***************************************************************************)
-CONSTANTS Credits, Pays, Reserves, Avails, Traffs, MaxOps
+CONSTANTS Credits, Pays, Reserves, Avails, Traffs, MaxOps,
+          Bursts     \* burst sizes (slow behaviours)
 VARIABLE nops
 
-Calls == [kind : {"credit"}, p : Peers, x : Credits, traff : {0}, avail : {0}, u : {0}]
-    \cup [kind : {"notify"}, p : Peers, x : Pays, traff : {0}, avail : {0}, u : {0}]
-    \cup [kind : {"debit"}, p : Peers, x : {1}, traff : Traffs, avail : {0}, u : {0}]
-    \cup [kind : {"reserve"}, p : Peers, x : Reserves, traff : {0}, avail : Avails, u : {0}]
+Calls == [kind : {"credit"}, p : Peers, x : Credits, traff : {0}, avail : {0}, u : {0}, n : {1}, d : {0}]
+    \cup [kind : {"notify"}, p : Peers, x : Pays, traff : {0}, avail : {0}, u : {0}, n : {1}, d : {0}]
+    \cup [kind : {"debit"}, p : Peers, x : {1}, traff : Traffs, avail : {0}, u : {0}, n : {1}, d : {0}]
+    \cup [kind : {"reserve"}, p : Peers, x : Reserves, traff : {0}, avail : Avails, u : {0}, n : {1}, d : {0}]
+    \cup [kind : {"burst"}, p : Peers, x : Credits, traff : {0}, avail : {0}, u : {0}, n : Bursts, d : {0}]
 
 Init == A = InitA /\ res = [op |-> "init"] /\ nops = 0
 
@@ -153,6 +245,9 @@ StartAllowed(a, t, c) ==
   /\ CallOK(a, t)
   /\ a.maplock # 0 => Cardinality(MapWaiters(a)) < 2
   /\ (a.maplock = 0 /\ a.known[c.p] /\ Blocks(a, t, c)) => Waiters(a, c.p) = {}
+  \* a goroutine that waits for room in the queue holds its peer's lock for as long as the settlement layer likes:
+  \* no call is started on that peer meanwhile (which waiter goes first afterwards is not under control)
+  /\ a.slow => a.lock[c.p] = 0
 
 Next ==
   \/ /\ A.granted # 0 /\ Do(Grant(A, A.granted), "grant") /\ UNCHANGED nops
@@ -160,6 +255,8 @@ Next ==
      /\ \E t \in Threads, c \in Calls : StartAllowed(A, t, c) /\ Do(Start(A, t, c), "call")
   \/ /\ UNCHANGED nops
      /\ \E t \in Threads : ReleaseOK(A, t) /\ Do(Release(A, t), "release")
+  \/ /\ UNCHANGED nops
+     /\ PayReleaseOK(A) /\ Do(PayRelease(A), "payrelease")
 
 Spec == Init /\ [][Next]_<<vars, nops>>
 
@@ -176,8 +273,8 @@ NonNegative == \A p \in Peers : A.unpaid[p] >= 0
 
 \* the lock protocol: exactly the goroutines inside a locked section hold their peer's lock
 LockProtocol ==
-  /\ \A t \in Threads : A.pc[t] \in {"c_put", "d_get", "d_put"} => A.lock[A.loc[t].p] = t
-  /\ \A p \in Peers : A.lock[p] # 0 => \/ A.pc[A.lock[p]] \in {"c_put", "d_get", "d_put"} /\ A.loc[A.lock[p]].p = p
+  /\ \A t \in Threads : A.pc[t] \in {"c_put", "c_send", "d_get", "d_put"} => A.lock[A.loc[t].p] = t
+  /\ \A p \in Peers : A.lock[p] # 0 => \/ A.pc[A.lock[p]] \in {"c_put", "c_send", "d_get", "d_put"} /\ A.loc[A.lock[p]].p = p
                                        \/ A.granted = A.lock[p]
   /\ \A p \in Peers : Cardinality(Waiters(A, p)) <= 2
   /\ \A t \in Threads : A.pc[t] = "wait" => A.lock[A.loc[t].p] # 0
@@ -185,16 +282,36 @@ LockProtocol ==
   /\ \A t \in Threads : A.pc[t] = "init" <=> A.maplock = t
   /\ \A t \in Threads : A.pc[t] = "init" => ~A.known[A.loc[t].p]
   /\ \A t \in Threads : A.pc[t] = "mwait" => (A.maplock # 0 \/ A.granted # 0)
-  /\ \A t \in Threads : A.pc[t] \in {"c_put", "d_get", "d_put", "r_bal", "wait"} => A.known[A.loc[t].p]
+  /\ \A t \in Threads : A.pc[t] \in {"c_put", "c_send", "d_get", "d_put", "r_bal", "wait"} => A.known[A.loc[t].p]
 
 \* a payment is requested for every credit that leaves the balance at or above the threshold
 PaymentRequested == \A p \in Peers : A.pays[p] = A.due[p]
+
+\* the queue is bounded; the worker is idle only when nothing waits; exactly the goroutines in "c_send" wait for room,
+\* and they wait only while the queue is full
+QueueProtocol ==
+  /\ Len(A.q) <= QCap
+  /\ A.inpay = 0 => (A.q = <<>> /\ A.sendq = <<>>)
+  /\ \A t \in Threads : A.pc[t] = "c_send" <=> \E i \in DOMAIN A.sendq : A.sendq[i] = t
+  /\ A.sendq # <<>> => Len(A.q) = QCap
+  /\ ~A.slow => (A.q = <<>> /\ A.inpay = 0 /\ A.sendq = <<>>)
+\* no request is lost: every request that was put has been handed to Pay or is still in the queue
+NothingLost == A.slow => \A p \in Peers : A.paid[p] + CountQ(A, p) = A.pays[p]
+\* at quiescence (every Pay released, nobody waiting) every credit that left the balance at or above the threshold
+\* has had its Pay call
+RECURSIVE IterRelease(_)
+IterRelease(a) == IF a.inpay = 0 THEN a ELSE IterRelease(PayRelease(a))
+DrainSettlesAll ==
+  DrainOK(A) => LET b == Drain(A)
+                IN /\ b = IterRelease(A)
+                   /\ \A p \in Peers : b.paid[p] = b.due[p]
+                   /\ \A t \in Threads : b.pc[t] = "idle"
 
 \* nothing is stuck: when no step is possible every goroutine is idle
 NoDeadlock == (~ENABLED Next) => \A t \in Threads : A.pc[t] = "idle"
 
 \* the balance moves only by a credit entering, or a payment notification (never below zero)
-BalanceFrame == [][\A p \in Peers : A'.unpaid[p] # A.unpaid[p] => res'.op \in {"call", "grant", "release"}]_<<vars, nops>>
+BalanceFrame == [][\A p \in Peers : A'.unpaid[p] # A.unpaid[p] => res'.op \in {"call", "grant", "release", "payrelease"}]_<<vars, nops>>
 \* a refused debit is not recorded; a served one is
 DebitFrame == [][\A p \in Peers : A'.recorded[p] # A.recorded[p] => A'.refused[p] = A.refused[p]]_<<vars, nops>>
 =============================================================================
